@@ -260,6 +260,13 @@ def queries(tier):
     out.append(q("select a, d from t3 where d not in ('x', 'z')", feat=["string-expr"]))
     out.append(q("select case when d = 'x' then 'is-x' else 'other' end, count(*) from t3 group by case when d = 'x' then 'is-x' else 'other' end", feat=["string-expr", "groupby-expr"]))
     out.append(q("select a, d from t3 where a = '2'", sqlite=False, feat=["string-expr"]))
+    # CASE with several WHEN branches that can be true at once (the first one wins), searched and simple form
+    out.append(q("select a, case when a > 1 then 'big' when a > 0 then 'pos' else 'rest' end from t3", feat=["case-multi"]))
+    out.append(q("select a, b, case when b > 1 then 2 when b > 0 then 1 when b is null then -1 else 0 end from t1", feat=["case-multi"]))
+    out.append(q("select a, case a when 1 then 'x' when 1 then 'y' when 2 then 'z' end from t1", feat=["case-multi"]))
+    out.append(q("select sum(case when b > 1 then 2 when b > 0 then 1 else 0 end), count(case when a > 0 then 1 when a > 1 then 2 end) from t1", feat=["case-multi", "agg"]))
+    out.append(q("select a, b from t1 where case when a > 1 then b > 0 when a > 0 then b is null else false end", feat=["case-multi"]))
+    out.append(q("select case when a > 1 then 'big' when a > 0 then 'pos' else 'rest' end, count(*) from t1 group by case when a > 1 then 'big' when a > 0 then 'pos' else 'rest' end", feat=["case-multi", "groupby-expr"]))
     # ---- level 2: joins
     for jt in JOIN_TYPES:
         for on in JOIN_ON:
@@ -312,6 +319,13 @@ def queries(tier):
     out.append(q("select s.a, t2.c from (select a from t1 where b > 0) s left join t2 on s.a = t2.a", feat=["derived", "join:left"], level=2))
     out.append(q("select s.a, s.m from (select a, max(b) as m from t1 group by a) s order by s.a, s.m", okeys=[(0, False), (1, False)], feat=["derived", "order"], level=2))
     out.append(q("select * from (select distinct a from t1) s where a > 1", feat=["derived", "distinct"], level=2))
+    # an ordered derived table re-sorted / grouped by a key that is not a prefix of its order (the inner order must not be
+    # taken for the outer one)
+    out.append(q("select * from (select a, b from t1 order by a, b) s order by b", okeys=[(1, False)], feat=["derived", "order"], level=2))
+    out.append(q("select * from (select a, b from t1 order by a, b) s order by b desc, a", okeys=[(1, True), (0, False)], feat=["derived", "order"], level=2))
+    out.append(q("select * from (select a, b from t1 order by b, a limit 3) s order by a", okeys=[(0, False)], det=False, feat=["derived", "order", "limit"], level=2))
+    out.append(q("select b, count(*) from (select a, b from t1 order by a, b) s group by b", feat=["derived", "groupby"], level=2))
+    out.append(q("select b, a from (select a, b from t1 order by a, b) s order by b, a limit 2", okeys=[(0, False), (1, False)], feat=["derived", "order", "limit"], level=2))
     out.append(q("select count(*) from (select a from t1 order by a limit 3) s", feat=["derived", "limit"], level=2))
     out.append(q("select * from (select a, b from t1 order by a, b limit 3) s order by a desc, b desc limit 1", okeys=[(0, True), (1, True)], feat=["derived", "limit"], level=2))
     # ---- level 3: three tables
